@@ -428,59 +428,6 @@ Proof.
   destruct e; apply wr_status_sticky; reflexivity.
 Qed.
 
-Lemma last_wh_acc h : forall acc,
-  last_wh h acc = match last_wh h None with Some c => Some c | None => acc end.
-Proof.
-  induction h as [|e r IH]; intro acc; simpl; [reflexivity|].
-  destruct e; auto. rewrite (IH (Some c)). destruct (last_wh r None); reflexivity.
-Qed.
-
-Lemma cap_status_fold h : forall s,
-  forallb valid_code h = true ->
-  cap_status (fold_left cap_step h s) =
-    match last_wh h None with
-    | Some c => c
-    | None => if has_write h && (cap_status s =? 0)%Z then 200%Z else cap_status s
-    end.
-Proof.
-  induction h as [|e r IH]; intros s Hv; simpl.
-  - reflexivity.
-  - simpl in Hv. apply andb_prop in Hv as [Hv1 Hv2]. rewrite (IH _ Hv2).
-    destruct e as [c|n|]; simpl.
-    + rewrite (last_wh_acc r (Some c)). destruct (last_wh r None); [reflexivity|].
-      simpl in Hv1. assert ((c =? 0)%Z = false) as -> by lia. now rewrite andb_false_r.
-    + destruct (last_wh r None); [reflexivity|].
-      destruct (cap_status s =? 0)%Z eqn:E; simpl; [now rewrite andb_false_r|].
-      rewrite E. now rewrite andb_false_r.
-    + reflexivity.
-Qed.
-
-Lemma capture_status_closed h :
-  forallb valid_code h = true ->
-  cap_status (capture h) =
-    match last_wh h None with Some c => c | None => if has_write h then 200%Z else 0%Z end.
-Proof.
-  intro Hv. unfold capture. rewrite (cap_status_fold h _ Hv). simpl. now rewrite andb_true_r.
-Qed.
-
-Lemma last_wh_none r acc : forallb (fun e => negb (is_wh e)) r = true -> last_wh r acc = acc.
-Proof.
-  revert acc. induction r as [|e r IH]; intros acc H; simpl; [reflexivity|].
-  simpl in H. apply andb_prop in H as [H1 H2]. destruct e; simpl in H1; try discriminate; now apply IH.
-Qed.
-
-Lemma capture_disciplined h :
-  forallb valid_code h = true -> disciplined h = true ->
-  reported_status (capture h) = w_status (sent h).
-Proof.
-  intros Hv Hd. rewrite sent_status. unfold reported_status. rewrite (capture_status_closed h Hv).
-  destruct h as [|e r]; [reflexivity|].
-  destruct e as [c|n|]; simpl in Hd; try discriminate.
-  - simpl. rewrite (last_wh_none r _ Hd). simpl in Hv. apply andb_prop in Hv as [Hv1 _].
-    assert ((c =? 0)%Z = false) as -> by lia. reflexivity.
-  - simpl. rewrite (last_wh_none r _ Hd). reflexivity.
-Qed.
-
 (* ---------------- statements of Properties.v that need more than one lemma ---------------- *)
 
 Lemma thm_trace_keeps_inbound (k : kind) (o : trace_opts) (s : sampler) (q : treq) (t : bytes) :
@@ -603,22 +550,46 @@ Proof.
   unfold capture, sent. rewrite cap_bytes_fold, wr_bytes_fold. simpl. split; reflexivity.
 Qed.
 
-Lemma thm_capture_reports_written_refuted :
-  (exists h, forallb valid_code h = true /\ reported_status (capture h) <> w_status (sent h) /\
-             h = [WriteHeader 201; WriteHeader 500]) /\
-  (exists h, forallb valid_code h = true /\ reported_status (capture h) <> w_status (sent h) /\
-             h = [Write 3; WriteHeader 404]) /\
-  (exists h, forallb valid_code h = true /\ reported_status (capture h) <> w_status (sent h) /\
-             h = [Flush]).
+
+
+
+
+(* ---------------- capture agrees with the writer on every history ---------------- *)
+
+Definition cap_rel (s : cap) (w : wr) : Prop :=
+  cap_bytes s = w_bytes w /\
+  ((cap_status s = 0%Z /\ w_status w = None) \/
+   (final_status (cap_status s) = true /\ w_status w = Some (cap_status s))).
+
+Lemma cap_rel_step s w e : final_code e = true -> cap_rel s w -> cap_rel (cap_step s e) (wr_step w e).
 Proof.
-  repeat split; eexists; (split; [|split; [|reflexivity]]); vm_compute; try reflexivity; discriminate.
+  intros Hf [Hb [[Hs Hw]|[Hs Hw]]].
+  - unfold cap_rel. destruct e as [c|n|]; simpl in *; rewrite Hs, Hw; simpl;
+      (split; [try rewrite Hb; reflexivity|right; split; auto]).
+  - unfold cap_rel. destruct e as [c|n|]; simpl in *; rewrite Hs, Hw; simpl;
+      (split; [try rewrite Hb; reflexivity|right; split; auto]).
 Qed.
 
-Lemma thm_capture_reports_written_partial (h : list wevent) :
-  forallb valid_code h = true -> disciplined h = true ->
-  reported_status (capture h) = w_status (sent h) /\
-  cap_bytes (capture h) = w_bytes (sent h).
+Lemma cap_rel_fold h : forall s w, forallb final_code h = true -> cap_rel s w ->
+  cap_rel (fold_left cap_step h s) (fold_left wr_step h w).
 Proof.
-  intros Hv Hd. split; [exact (capture_disciplined h Hv Hd)|].
-  destruct (thm_capture_reports_bytes_written h) as [-> ->]. reflexivity.
+  induction h as [|e r IH]; intros s w Hf Hr; simpl; [exact Hr|].
+  simpl in Hf. apply andb_prop in Hf as [Hf1 Hf2]. apply IH; [exact Hf2|]. now apply cap_rel_step.
 Qed.
+
+Lemma thm_capture_reports_written (h : list wevent) :
+  forallb final_code h = true ->
+  reported_status (capture h) = w_status (sent h) /\ cap_bytes (capture h) = w_bytes (sent h).
+Proof.
+  intro Hf.
+  assert (H0 : cap_rel {| cap_status := 0; cap_bytes := 0 |} {| w_status := None; w_bytes := 0 |}).
+  { split; [reflexivity|left; split; reflexivity]. }
+  destruct (cap_rel_fold h _ _ Hf H0) as [Hb [[Hs Hw]|[Hs Hw]]]; fold (capture h) in *; fold (sent h) in *.
+  - split; [|exact Hb]. unfold reported_status. rewrite Hs, Hw. reflexivity.
+  - split; [|exact Hb]. unfold reported_status. rewrite Hw.
+    unfold final_status in Hs. assert ((cap_status (capture h) =? 0)%Z = false) as -> by lia. reflexivity.
+Qed.
+
+Lemma thm_capture_status_closed_form (h : list wevent) :
+  forallb final_code h = true -> reported_status (capture h) = first_commit h.
+Proof. intro Hf. rewrite <- sent_status. exact (proj1 (thm_capture_reports_written h Hf)). Qed.
